@@ -104,6 +104,7 @@ pub fn tok_to_char(s: &str) -> char {
         "Z" => '\u{161}',
         "G" => '\u{E000}',
         "U" => '\u{E001}',
+        "D" => '\u{E002}', // CR LF: one cluster
         // C14: whitespace and line terminators have token names
         "S" => ' ',
         "T" => '\t',
@@ -125,6 +126,7 @@ pub fn char_to_tok(c: char) -> String {
         '\u{161}' => "Z".to_string(),
         '\u{E000}' => "G".to_string(),
         '\u{E001}' => "U".to_string(),
+        '\u{E002}' => "D".to_string(),
         ' ' => "S".to_string(),
         '\t' => "T".to_string(),
         '\n' => "N".to_string(),
